@@ -119,6 +119,8 @@ fn seg_tok(name: &str, s: &ActorSegment) -> String {
 struct Dribble {
     buf: Vec<u8>,
     max: usize,
+    /// the transport offers gathered writes (as sockets do): `max` then bounds the bytes taken across the slices of one call
+    vectored: bool,
 }
 
 impl tokio::io::AsyncWrite for Dribble {
@@ -126,6 +128,23 @@ impl tokio::io::AsyncWrite for Dribble {
         let n = if self.max == 0 { data.len() } else { data.len().min(self.max) };
         self.buf.extend_from_slice(&data[..n]);
         std::task::Poll::Ready(Ok(n))
+    }
+    fn poll_write_vectored(mut self: std::pin::Pin<&mut Self>, _cx: &mut std::task::Context<'_>, bufs: &[std::io::IoSlice<'_>]) -> std::task::Poll<std::io::Result<usize>> {
+        let mut room = if self.max == 0 { usize::MAX } else { self.max };
+        let mut n = 0;
+        for b in bufs {
+            let k = b.len().min(room);
+            self.buf.extend_from_slice(&b[..k]);
+            n += k;
+            room -= k;
+            if room == 0 {
+                break;
+            }
+        }
+        std::task::Poll::Ready(Ok(n))
+    }
+    fn is_write_vectored(&self) -> bool {
+        self.vectored
     }
     fn poll_flush(self: std::pin::Pin<&mut Self>, _cx: &mut std::task::Context<'_>) -> std::task::Poll<std::io::Result<()>> {
         std::task::Poll::Ready(Ok(()))
@@ -139,8 +158,10 @@ impl tokio::io::AsyncWrite for Dribble {
 /// (what is on the wire after send_packet returned Ok is the whole frame, however the transport chunks it)
 fn send<P: Packetize>(p: &P) -> Vec<u8> {
     static TURN: std::sync::atomic::AtomicUsize = std::sync::atomic::AtomicUsize::new(0);
-    let max = [0usize, 1, 7, 0, 16, 64][TURN.fetch_add(1, std::sync::atomic::Ordering::Relaxed) % 6];
-    let mut st = Stream::new(Dribble { buf: vec![], max });
+    let turn = TURN.fetch_add(1, std::sync::atomic::Ordering::Relaxed);
+    let max = [0usize, 1, 7, 0, 16, 64, 4, 9, 10, 11][turn % 10];
+    // every other round through the sizes the sink is gather-capable (header and payload may arrive as two slices of one call)
+    let mut st = Stream::new(Dribble { buf: vec![], max, vectored: (turn / 10) % 2 == 1 });
     rt().block_on(st.send_packet(p)).unwrap();
     st.inner().buf.clone()
 }
